@@ -615,6 +615,13 @@ func (g *fgen) modKeys(fc *funcContract, item string) (map[string]modEntry, erro
 			return out, nil
 		}
 	}
+	// `*x.f`: the object the pointer-valued path points to (type-level: every object of
+	// that type)
+	deref := false
+	if strings.HasPrefix(item, "*") && !elems {
+		deref = true
+		item = strings.TrimSpace(item[1:])
+	}
 	parts := strings.Split(item, ".")
 	var cur types.Type
 	// first part: receiver / param / type name / package
@@ -691,6 +698,15 @@ func (g *fgen) modKeys(fc *funcContract, item string) (map[string]modEntry, erro
 			}
 		}
 		_ = i
+	}
+	if deref {
+		pt, ok := cur.Underlying().(*types.Pointer)
+		if !ok {
+			return nil, transErr("modifies: " + item + " is not a pointer")
+		}
+		psl := g.ptrSloc(pt.Elem(), false)
+		g.slocLeaves(psl, psl.path, psl.typ, out)
+		return out, nil
 	}
 	if elems {
 		switch u := cur.Underlying().(type) {
